@@ -205,6 +205,10 @@ static void mod_filt()
     ++n_eval;
     if (c.num_n != m.num_n || c.den_n != m.den_n || c.num_p != m.num_p || c.den_p != m.den_p || m.input != in4 || m.output != out4) { differ("tf", "set_num/set_den", "orders, coefficient or delay-line pointers differ"); }
     for (int k = 0; k < 7; ++k) { CHECK_RET("tf", "operator() after set_num/set_den", m(X[k]), a_tf_iter(&c, X[k])); }
+    // the sample is an element of the object's own history (feedback of the newest output / input)
+    { a_real v = c.output[0]; CHECK_RET("tf", "operator()(own newest output)", m(m.output[0]), a_tf_iter(&c, v)); }
+    { a_real v = c.input[1]; CHECK_RET("tf", "operator()(own older input)", m(m.input[1]), a_tf_iter(&c, v)); }
+    CHECK_RET("tf", "operator()", m(X[2]), a_tf_iter(&c, X[2]));
     // first-order filters: gen, operator(), zero
     for (const double *t : {TUP[0], TUP[1], TUP[2], TUP[3]})
     {
@@ -238,6 +242,21 @@ static void mod_filt()
             CHECK_RET("lpf", "operator()", lm(X[k]), a_lpf_iter(&lc, X[k]));
             CHECK_RET("hpf", "operator()", hm(X[k]), a_hpf_iter(&hc, X[k]));
             if (k == 4) { a_lpf_zero(&lc); lm.zero(); a_hpf_zero(&hc); hm.zero(); CHECK_OBJ("lpf", "zero", lc, lm); CHECK_OBJ("hpf", "zero", hc, hm); }
+        }
+        // the sample handed over is one of the object's own fields (a hold / feedback idiom): a by-value parameter sees the value as it was
+        // before the call, like the C function given a copy of it
+        {
+            a_real v = lc.output;
+            CHECK_RET("lpf", "operator()(own output)", lm(lm.output), a_lpf_iter(&lc, v));
+            CHECK_OBJ("lpf", "operator()(own output)", lc, lm);
+            v = hc.output;
+            CHECK_RET("hpf", "operator()(own output)", hm(hm.output), a_hpf_iter(&hc, v));
+            CHECK_OBJ("hpf", "operator()(own output)", hc, hm);
+            v = hc.input;
+            CHECK_RET("hpf", "operator()(own input)", hm(hm.input), a_hpf_iter(&hc, v));
+            CHECK_OBJ("hpf", "operator()(own input)", hc, hm);
+            CHECK_RET("hpf", "operator()", hm(X[1]), a_hpf_iter(&hc, X[1]));
+            CHECK_RET("lpf", "operator()", lm(X[2]), a_lpf_iter(&lc, X[2]));
         }
     }
     R.part("C++ members of a_tf (init, set_num, set_den, operator(), zero), a_lpf / a_hpf (gen, operator(), zero) next to the C functions; generator macros with compound-expression arguments", n_eval, n_eval);
